@@ -257,7 +257,7 @@ def c_antisym(case, ctx):
     ctx.close(dres, dres0 + g, ("accumulate_gradient", cls), rtol=1e-12, scale=gmax + 4.0)
     # (1, n, N1) input with the optional output arrays left out
     out = G.guard(ctx, ("call_default_outputs", cls, "3d"), lambda: ev(X[None]), always=True)
-    ctx.check(isinstance(out, tuple) and len(out) == 2 and np.shape(out[0]) == (len(X),) and np.shape(out[1]) == (1,) + X.shape,
+    ctx.check(isinstance(out, (tuple, list)) and len(out) == 2 and np.shape(out[0]) == (len(X),) and np.shape(out[1]) == (1,) + X.shape,
               ("res_default", "shape", cls), got=[list(np.shape(o)) for o in out] if isinstance(out, tuple) else repr(type(out)))
     ctx.close(out[0], f, ("res_default", "value", cls), rtol=1e-12, scale=S)
     ctx.close(out[1][0], g, ("res_default", "gradient", cls), rtol=1e-12, scale=gmax + 1e-300)
@@ -337,7 +337,7 @@ def c_spin(case, ctx):
     ctx.close(dres[1] - dres0[1], gb, ("gradient_b", cls), rtol=1e-12, scale=Sg + 4.0)
     # the same call with the optional output arrays left out (allocated by the evaluator)
     out = G.guard(ctx, ("call_default_outputs", cls), lambda: ev(X), always=True)
-    ctx.check(isinstance(out, tuple) and len(out) == 2 and np.shape(out[0]) == (case["n"],) and np.shape(out[1]) == X.shape,
+    ctx.check(isinstance(out, (tuple, list)) and len(out) == 2 and np.shape(out[0]) == (case["n"],) and np.shape(out[1]) == X.shape,
               ("res_default", "shape", cls), got=[list(np.shape(o)) for o in out] if isinstance(out, tuple) else repr(type(out)))
     ctx.close(out[0], f_ref, ("res_default", "value", cls), rtol=1e-12, scale=S + 4.0)
     ctx.close(out[1][0], ga, ("res_default", "gradient_a", cls), rtol=1e-12, scale=Sg + 4.0)
